@@ -106,7 +106,8 @@ def rules_c02(ctx):
     S = p_search
     return (S.rule_cap(ctx, 'pgm', ctx.units, fnames=('search', 'segment_for_key')) + [o for o in S.rule_range_form(ctx, 'pgm', ctx.units)] +
             p_segmentation.rule_closing(ctx) + [o for o in p_segmentation.rule_rank_agree(ctx) if o.rule == 'GAP-GUARD' or o.arm in ('gap', 'closing')] +
-            p_segmentation.rule_key_arith(ctx) + [o for o in p_segmentation.rule_omp_order(ctx) if o.arm == 'last-chunk'] + p_segmentation.rule_seam(ctx))
+            p_segmentation.rule_key_arith(ctx) + [o for o in p_segmentation.rule_omp_order(ctx) if o.arm == 'last-chunk'] + p_segmentation.rule_seam(ctx) +
+            S.rule_conv_range(ctx, 'pgm', ctx.all_units()))
 
 
 def rules_c07(ctx):
@@ -117,19 +118,20 @@ def rules_c07(ctx):
 def rules_c08(ctx):
     S = p_search
     return (S.rule_range_form(ctx, 'compressed') + S.rule_agree_eps(ctx, 'compressed') + S.rule_clamp(ctx, 'compressed') + S.rule_cap(ctx, 'compressed') +
-            S.rule_kind_compressed(ctx) + S.rule_window_form(ctx, 'compressed') + S.rule_compressed_level(ctx) + p_segmentation.rule_precision(ctx))
+            S.rule_kind_compressed(ctx) + S.rule_window_form(ctx, 'compressed') + S.rule_compressed_level(ctx) + p_segmentation.rule_precision(ctx) +
+            S.rule_conv_range(ctx, 'compressed'))
 
 
 def rules_c09(ctx):
     S = p_search
     return (S.rule_range_form(ctx, 'bucketing') + S.rule_agree_eps(ctx, 'bucketing') + S.rule_clamp(ctx, 'bucketing') + S.rule_cap(ctx, 'bucketing') +
-            S.rule_kind_bucketing(ctx) + S.rule_bucket_agree(ctx))
+            S.rule_kind_bucketing(ctx) + S.rule_bucket_agree(ctx) + S.rule_conv_range(ctx, 'pgm'))
 
 
 def rules_c10(ctx):
     S = p_search
     return (S.rule_range_form(ctx, 'eliasfano') + S.rule_agree_eps(ctx, 'eliasfano') + S.rule_clamp(ctx, 'eliasfano') + S.rule_cap(ctx, 'eliasfano') +
-            S.rule_rebase_agree(ctx))
+            S.rule_rebase_agree(ctx) + S.rule_conv_range(ctx, 'eliasfano'))
 
 
 _SEARCH_ND = ('that every constraint point is within Epsilon of its segment, that float slopes and size_t(slope*double(k-key)) round inside the +2 slack, '
